@@ -176,7 +176,7 @@ func (e *Eng) Verify() (obls []*Obligation, err error) {
 func (e *Eng) initialState() *State {
 	st := &State{heap: map[string]T{}, reach: "true"}
 	for _, n := range e.sortedHeapNames() {
-		st.heap[n] = e.q.Declare(n+"@0", e.heapNames[n])
+		st.heap[n] = e.heapAxiom(n, e.q.Declare(n+"@0", e.heapNames[n]))
 	}
 	return st
 }
@@ -217,6 +217,26 @@ func (e *Eng) runOnce(loopMods map[int]map[string]bool) map[int]map[string]bool 
 		}
 		e.assumeValAllocated(fr, st, fv.Type(), v)
 		fr.vals[fv] = v
+	}
+	if e.fc != nil {
+		// captured variables named by the contract become extra (entry-valued) parameters of its clauses
+		for _, d := range e.fc.FreeVars {
+			found := false
+			for _, fv := range e.fn.FreeVars {
+				if fv.Name() == d.Name {
+					p := fr.vals[fv].(*PtrV)
+					cv := e.freshVal(p.Elem, "fvval_"+d.Name)
+					e.storePtr(fr, st, p, p.Elem, cv)
+					e.assume(st, e.wf(p.Elem, cv))
+					e.assumeValAllocated(fr, st, p.Elem, cv)
+					e.params = append(e.params, cv)
+					found = true
+				}
+			}
+			if !found {
+				panic(unsupportedErr{"contract of " + e.fc.Key + " names a captured variable that does not exist: " + d.Name})
+			}
+		}
 	}
 	if e.fc != nil {
 		for _, t := range e.fc.Holds {
@@ -339,7 +359,7 @@ func (e *Eng) merge(fr *Frame, b *ssa.BasicBlock, ins []*inEdge) *State {
 				st.heap[n] = first
 				continue
 			}
-			m := e.fresh("m|"+n, e.heapNames[n])
+			m := e.heapAxiom(n, e.fresh("m|"+n, e.heapNames[n]))
 			if !e.collect {
 				for _, in := range ins {
 					e.q.Assert(tImp(in.cond, tEq(m, in.st.heap[n])))
@@ -645,7 +665,7 @@ func (e *Eng) loopHead(fr *Frame, li *loopInfo, st *State, loopMods map[int]map[
 				st.heap[n] = na
 				continue
 			}
-			st.heap[n] = e.fresh(fmt.Sprintf("lh%d|%s", li.ord, n), e.heapNames[n])
+			st.heap[n] = e.heapAxiom(n, e.fresh(fmt.Sprintf("lh%d|%s", li.ord, n), e.heapNames[n]))
 		}
 	}
 	for _, instr := range h.Instrs {
@@ -693,6 +713,17 @@ func (e *Eng) loopHead(fr *Frame, li *loopInfo, st *State, loopMods map[int]map[
 		}
 	}
 	li.headState = st.clone()
+	if li.spec != nil && li.spec.HasMod {
+		vars := map[string]Val{}
+		for _, vd := range li.spec.Vars {
+			vars[vd.Name] = e.loopVar(fr, li, vd.Name, li.phiHead, st)
+		}
+		li.modTargets = nil
+		for _, m := range li.spec.ModSpecs {
+			li.modTargets = append(li.modTargets, e.evalModSpecVars(e.fc, m, e.params, vars, st)...)
+		}
+		li.modReady = true
+	}
 	if e.fc != nil && len(e.fc.Terminates) > 0 && li.rangeIdx == nil && (li.spec == nil || li.spec.Decreases == nil) {
 		var props []string
 		for p := range e.fc.Terminates {
@@ -875,7 +906,7 @@ func (e *Eng) finish(fr *Frame) {
 				st.heap[n] = first
 				continue
 			}
-			m := e.fresh("exit|"+n, e.heapNames[n])
+			m := e.heapAxiom(n, e.fresh("exit|"+n, e.heapNames[n]))
 			if !e.collect {
 				for _, in := range ins {
 					e.q.Assert(tImp(in.cond, tEq(m, in.st.heap[n])))
